@@ -1567,7 +1567,25 @@ def isinf(x):
 
 
 def isfinite(x):
-    return T(np.ones(tuple(x.shape), dtype=np.bool_), _rt.bool, True)
+    """A1 (no overflow): a real expression is finite iff it is defined -- divisors non-zero, radicands non-negative."""
+    if not isinstance(x, T) or x.a.dtype != object:
+        return T(np.ones(tuple(x.shape), dtype=np.bool_), _rt.bool, True)
+    out = np.empty(x.a.shape, dtype=object)
+    symbolic = False
+    for pos in np.ndindex(*x.a.shape):
+        v = x.a[pos]
+        if isinstance(v, Sym):
+            d = E.defined(v.n)
+            if d is E.TRUE:
+                out[pos] = True
+            else:
+                out[pos] = Sym(d)
+                symbolic = True
+        else:
+            out[pos] = True
+    if not symbolic:
+        return T(np.ones(tuple(x.shape), dtype=np.bool_), _rt.bool, True)
+    return T(out, _rt.bool, True)
 
 
 def is_tensor(x):
